@@ -13,7 +13,13 @@ CONFIG = dict(
                "transcribed from apply_outputs on a virtual clock) and the model on the same generated timed histories and diffing "
                "every output, firing time and state, with the reference checker as oracle on the real observations; the "
                "transcription itself is tied to the real PeerSession::apply_outputs by timer-probe cases (real tokio sleeps: "
-               "armed deadline and whether run_select's poll fires) judged by a behavioural oracle.",
+               "armed deadline and whether run_select's poll fires) judged by a behavioural oracle; and a driver-level wire "
+               "stream runs the REAL session code on loopback TCP (accept_connection, ConnArbiter::process, run_select with all "
+               "its arms, apply_outputs, finish_session, apply_disconnect): real wire frames (OPEN, KEEPALIVE, every kind of "
+               "UPDATE incl. AS-looped and attributes-only ones, NOTIFICATION, ROUTE-REFRESH), timers made due, the hold timer due "
+               "together with a readable KEEPALIVE; after every action both timer collections are probed (re-set or kept, "
+               "deadline) and judged by the clauses 'every KEEPALIVE/UPDATE received re-arms the hold timer to the negotiated "
+               "value, nothing else does, negotiated 0 = both disabled'.",
     level_note="Trusted: Lean kernel; axioms propext/Classical.choice/Quot.sound; hand-written model Rbgp/Fsm/{Model,Timed}.lean "
                "(checked only by the correspondence streams); the virtual-clock timer loop in harness/daemon/fsm.rs run_case_c08 "
                "(transcription of apply_outputs/run_select; its reading of SetHoldTimer/SetKeepaliveTimer is checked against the "
@@ -22,8 +28,15 @@ CONFIG = dict(
                "not carry hold time 1 or 2 (what parse_message guarantees; raw OPENs go through the real parser) - both are "
                "necessary, Lean counter-examples wf_needed_*.  Fixed defect S15 (commit 6e5d82a in /repo: a negotiated hold time "
                "of zero still armed SetHoldTimer(0)=immediate expiry and never cancelled the 240 s OpenSent timer); model and "
-               "proofs are about the repaired code.  Modelled, not verified: wall-clock accuracy of tokio sleeps, "
-               "FuturesUnordered polling order.",
+               "proofs are about the repaired code.  Fixed defect F08-filtered-update-does-not-rearm-hold-timer (an UPDATE whose "
+               "routes are all ignored - AS loop, attributes only - never reached the FSM: no hold-timer restart, no FSM error "
+               "outside Established; found by the wire stream).  Remark R08: a configured local hold time 0 becomes 180 in both "
+               "configuration paths, so negotiated 0 is reachable in the daemon only through the remote value.  The `wait` loop "
+               "of run_case_c08 (virtual clock, firing order, fuel) stays transcribed; what the wire stream ties to the real "
+               "run_select is: the hold collection feeds HoldTimerExpired and ends the task with NOTIFICATION (4,0), the "
+               "keepalive collection feeds KeepaliveTimerExpired (KEEPALIVE sent, timer re-armed to a third), both are polled "
+               "before the socket, an emptied collection is reported (timer-collection-empty).  Not tied: that a tokio sleep "
+               "completes at its deadline, hold-before-keepalive on an exact tie.",
     lean_modules=["Rbgp.Fsm.TimedProps"],
     theorems=[
         "Rbgp.Fsm.TimedProps.check_run_ok",
@@ -52,21 +65,28 @@ CONFIG = dict(
     harness=dict(kind="daemon", test="event::verif_event::c08::verif_main"),
     profiles=["debug"],
     n_quick=3000, n_thorough=150000, shards=12,
-    nontrivial_re=r"\(fired \(|probe-obs",
+    nontrivial_re=r"\(fired \(|probe-obs|wire-obs",
     rule="(a) timed histories (message arrivals, sends, passage of virtual time) through OpenSent/OpenConfirm/Established on both "
          "roles; local and remote hold times from {0,3,4,9,30,90,240,65535}; OPENs raw (through the real parser, incl. hold 1/2 "
          "and bad identifiers) and parsed; waits chosen around the keepalive and hold deadlines (deadline-1, deadline, "
          "deadline+1), around the 240 s OpenSent timer and long ones; (b) about one case in twelve is a timer probe: a list of "
          "0..5 Set*Timer/other outputs (values 0,1,3,30,90,240,65535) applied by the real PeerSession::apply_outputs; "
-         "non-trivial = at least one timer fired or a probe observation; distinct = distinct case line",
+         "(c) about one case in twenty-five is a driver-level wire case (real sessions on loopback TCP, 2..12 actions incl. "
+         "looped / attributes-only / withdraw / End-of-RIB UPDATEs, both timers made due, collisions, refused OPENs); "
+         "non-trivial = at least one timer fired, a probe observation or a wire observation; distinct = distinct case line",
     expect_tokens=["hold-expired", "(fired (", "ka ", "established", "probe-obs", "far", "parse-reject", "(6 7)",
-                   "stop-active-connect"],
+                   "stop-active-connect", "wire-obs", "(hold set", "(hold kept", "(ka set", "(notif 4 0)", "(notif 6 7)",
+                   "refused"],
     trusted_base=["model Rbgp/Fsm/Timed.lean of the timer bookkeeping in PeerSession::apply_outputs / run_select",
                   "harness/daemon/fsm.rs run_case_c08 keeps the two timer slots per task on a virtual clock (transcribed "
                   "from apply_outputs; the Set*Timer reading is cross-checked on the real apply_outputs by the probe cases); "
                   "that tokio::time::sleep(n) completes n seconds later is assumed",
                   "harness/daemon/c08.rs: helpers copied from event/mod.rs `mod tests` (make_global, default_peer_params, "
-                  "loopback_pair); 30 ms of real time decide fires/quiet"],
+                  "loopback_pair); 30 ms of real time decide fires/quiet",
+                  "harness/daemon/rig.rs (wire stream): transcribed session_loop preamble/tail and run->apply_disconnect call, "
+                  "timer expiry provoked by replacing the collection with sleep(0), single-threaded pumping, 12 ms idle "
+                  "detection; model Rbgp/Fsm/Wire.lean (incl. 'End-of-RIB is sent on entering Established => update-sent'), "
+                  "checker Rbgp/Fsm/WireSpec.lean (no Lean master theorem for this stream)"],
     modelled_not_verified=["wall-clock accuracy of tokio sleeps", "FuturesUnordered polling order beyond hold-before-keepalive",
                            "the second SetKeepaliveTimer site (flush of pending UPDATEs feeding Input::UpdateSent) is covered as "
                            "the FSM output only"],
